@@ -307,6 +307,19 @@ func (x *Exec) evalCall(e *ast.CallExpr, st *State) (Value, types.Type) {
 		return x.opaqueResult(e, st), x.typeOf(e)
 	}
 	name := calleeName(f.Decl)
+	if x.con != nil {
+		if g := x.con.Opts["call-guard:"+f.Decl.Name()]; g != "" && !x.contract {
+			ge, err := parser.ParseExpr(rewriteImplies(g))
+			if err != nil {
+				engineFail("call-guard: %v", err)
+			}
+			save := x.saveContractCtx()
+			x.contract = true
+			phi := x.evalBool(ge, st)
+			x.restoreContractCtx(save)
+			x.oblige(st, "pre", "guard@"+f.Decl.Name(), phi, g)
+		}
+	}
 	// sync primitives and atomics: sequential semantics (A3)
 	if v, ok := x.syncModel(name, f, args, e, st); ok {
 		return v, x.typeOf(e)
